@@ -3,6 +3,9 @@
 mod c15;
 mod c18;
 mod c35;
+mod gtchk;
+mod oraclechk;
+mod world;
 mod tlworld;
 mod cfgkeys;
 mod defaults;
@@ -31,6 +34,12 @@ fn main() {
         "C16" => cfgkeys::run_c16(&cli),
         "C17" => cfgkeys::run_c17(&cli),
         "C18" => c18::run(&cli),
+        "C24" => oraclechk::run_c24(&cli),
+        "C25" => oraclechk::run_c25(&cli),
+        "C29" => oraclechk::run_c29(&cli),
+        "C30" => gtchk::run_c30(&cli),
+        "C31" => gtchk::run_c31(&cli),
+        "C32" => gtchk::run_c32(&cli),
         "C35" => c35::run(&cli),
         "C36" => tlworld::run_c36(&cli),
         other => {
